@@ -134,7 +134,7 @@ class Ctx:
         self.c = {k: 0 for k in (
             "accept_compared", "reject_compared", "open_accepted", "open_rejected", "value_comparisons",
             "both_raise", "exception_class_differs", "tracer_call_events", "audit_events", "api_comparisons",
-            "hostile_strings", "mutants", "grammar_strings", "leaked_non_piquasso_rejection")}
+            "hostile_strings", "mutants", "grammar_strings", "leaked_non_piquasso_rejection", "repeat_constructions")}
         self.callees = {}
         self.classes = set()
         self.samples = []
@@ -195,6 +195,20 @@ def check_string(ctx, pq_expr_mod, InvalidExpression, src, outcomes_list, origin
                      "Expression(%r) was accepted but contains a construct outside the grammar" % src[:200], case)
             return
         ctx.classes.add("reject:" + shape(src)[:120])
+        # rejection must not depend on history: the same string (and a whitespace variant of it)
+        # constructed again in the same process must be rejected again
+        for variant in (src, " " + src + " "):
+            ctx.c["repeat_constructions"] += 1
+            try:
+                again = pq_expr_mod.Expression(variant)
+            except BaseException as e:  # noqa
+                if isinstance(e, (KeyboardInterrupt, SystemExit)):
+                    raise
+                again = None
+            if again is not None:
+                ctx.viol("accepts-construct-outside-grammar-on-repeat",
+                         "Expression(%r) was rejected the first time and accepted when constructed again" % variant[:200], case)
+                break
         return
     if expected == "accept":
         ctx.c["accept_compared"] += 1
@@ -251,6 +265,27 @@ def check_string(ctx, pq_expr_mod, InvalidExpression, src, outcomes_list, origin
             if py[1] != got[1]:
                 ctx.c["exception_class_differs"] += 1
                 ctx.obs.add("both raise, classes differ: python %s / Expression %s" % (py[1], got[1]))
+    # a second construction of the same string must mean the same thing (no stale memoisation)
+    if outcomes_list:
+        x = outcomes_list[-1]
+        ctx.c["repeat_constructions"] += 1
+        try:
+            e2 = pq_expr_mod.Expression(src)
+            got2 = ("v", e2(x))
+        except BaseException as e:  # noqa
+            if isinstance(e, (KeyboardInterrupt, SystemExit)):
+                raise
+            got2 = ("e", type(e).__name__)
+        try:
+            got1 = ("v", expr(x))
+        except BaseException as e:  # noqa
+            if isinstance(e, (KeyboardInterrupt, SystemExit)):
+                raise
+            got1 = ("e", type(e).__name__)
+        if got1[0] != got2[0] or (got1[0] == "v" and not same_value(got1[1], got2[1])) or (got1[0] == "e" and got1[1] != got2[1]):
+            ctx.viol("repeated-construction-evaluates-differently",
+                     "%r on x=%r: first Expression gives %r, a second Expression of the same string %r" % (src[:200], x, got1, got2),
+                     dict(case, x=list(x)))
     if len(ctx.samples) < 6 and origin in ("grammar", "mutant"):
         ctx.samples.append({"src": src, "class": expected, "x": list(outcomes_list[0]) if outcomes_list else [],
                             "python": repr(py_eval(src, outcomes_list[0]))[:80] if outcomes_list else None})
